@@ -170,9 +170,6 @@ impl Storage {
                     let value = Value::Transaction(0, tx_index as TxIndex, &tx);
                     batch.put_kv(key, value).expect("batch put should be ok");
                 });
-            batch
-                .put_kv(genesis_block_key, genesis_hash_and_txs_hash.as_slice())
-                .expect("batch put should be ok");
             batch.commit().expect("batch commit should be ok");
             self.update_last_state(&U256::zero(), &block.header(), &[]);
             let genesis_block_filter_hash: Byte32 = {
@@ -190,6 +187,12 @@ impl Storage {
             self.update_max_check_point_index(0);
             self.update_check_points(0, &[genesis_block_filter_hash]);
             self.update_min_filtered_block_number(0);
+            // The genesis block key marks the storage as initialized, so it has to be written
+            // at last: if the process is killed before that, all of the above is written again
+            // when the storage is opened the next time.
+            self.db
+                .put(genesis_block_key, genesis_hash_and_txs_hash.as_slice())
+                .expect("db put genesis block should be ok");
         }
     }
 
